@@ -1,6 +1,6 @@
 (* C03 — Each client call gets the reply to its own request. Theorems only; proofs in Proofs/ClientConnP.v *)
 From Coq Require Import List Bool Arith.
-From Sftp Require Import Conn.ClientConn Proofs.ClientConnP.
+From Sftp Require Import Conn.ClientConn Conn.ConnTrace Proofs.ClientConnP Proofs.ConnTraceP.
 Import ListNotations.
 
 (* for every number of concurrent callers and every interleaving of their steps with the receiver's deliveries (replies
@@ -30,6 +30,16 @@ Print Assumptions C03_invariant.
 
 (* "each request reaches the wire as one contiguous frame" is the connection mutex around header+payload writes: in the
    model a frame is one label (SendOK); the harness checks the consequence on the real byte stream (family c03). *)
+(* ===== the tie to conn.go: trace acceptance (family cct) =====
+   The instrumented connection reports P (putChannel), S (send result), g (getChannel), B (broadcast), T (result taken);
+   P, g and B inside the clientConn mutex. `caccept_trace` replays them; every candidate explanation of an accepted trace
+   is a state the LTS reaches from n idle callers, so the invariant and every theorem above holds for what the real
+   connection did in that run. *)
+Theorem C03_accepted_trace_reachable : forall n tr cs, caccept_trace n tr = inl cs ->
+  cs <> [] /\ Forall (fun c => reach n (fst c) /\ cinv (fst c)) cs.
+Proof. exact accepted_conn_trace. Qed.
+Print Assumptions C03_accepted_trace_reachable.
+
 Example C03_nonvacuous :
   exists s, crun (cinit 2) [NextID 0; NextID 1; Put 1; Put 0; SendOK 0; SendOK 1; Deliver 2; Deliver 1; Take 1; Take 0] = Some s /\
             cstate_of 0 (callers s) = Some (CDone 1 (ROk 1)) /\ cstate_of 1 (callers s) = Some (CDone 2 (ROk 2)) /\ wire s = [1; 2].
